@@ -5,7 +5,9 @@ sys.path.insert(0, os.path.dirname(os.path.abspath(__file__)))
 from concurrent.futures import ThreadPoolExecutor
 from vlib import common as C
 
-ok, out = C.lean_build()
+claimed = open(os.path.join(C.VERIF, 'vlib', 'claimed.txt')).read().split()
+targets = [t for pid in claimed for t in C.property_targets(pid)]
+ok, out = C.lean_build(targets)
 if not ok:
     print(out[-5000:])
     sys.exit(1)
